@@ -72,8 +72,8 @@ def rand_jobs(specprofile, profiles, quick, thorough, nquick=1, nthorough=16, mo
     return out
 
 
-STRUCT = ["conflict_flat", "conflict_ortho", "order_rows", "nest2_mixed", "nest3"]
-COMMON_FAMS = ["ids_mixed_none", "ids_mixed_always", "ids_mixed_shallow", "conflict_flat", "conflict_ortho", "order_rows", "nest2_mixed", "nest3", "nest3_deep", "nest_inactive", "noevent", "exit_points",
+STRUCT = ["conflict_flat", "conflict_ortho", "order_rows", "nest2_mixed", "nest3", "internal_guard_only"]
+COMMON_FAMS = ["ids_mixed_none", "ids_mixed_always", "ids_mixed_shallow", "conflict_flat", "conflict_ortho", "order_rows", "nest2_mixed", "nest3", "nest3_deep", "nest_inactive", "noevent", "exit_points", "internal_guard_only",
                "history_none", "history_always", "history_shallow", "queue_flat", "queue_nested", "blocking", "flags",
                "completion_chain"]
 
@@ -111,6 +111,8 @@ PROPS = {
         "jobs": jobs(["queue_flat", "queue_nested", "conflict_ortho", "completion_chain", "defer_basic", "nest2_mixed", "nest3"],
                      ["queue"], 1000, 50000, variants=ALLV)
                 + jobs(["nest2_mixed", "queue_nested"], ["reentrant"], 300, 3000, variants=["B", "M"])
+                # "... from exception_caught": submissions made by exception_caught need the throws profile (second seeded defect C04)
+                + jobs(["queue_flat", "nest2_mixed", "order_rows"], ["throws"], 600, 30000, variants=ALLV)
                 + rand_jobs("struct", ["queue"], 600, 8000) + rand_jobs("compl", ["queue"], 0, 6000),
         "nontrivial": ["post"],
         "rule": "plans with 0-3 re-entrant submissions per op from arbitrary callback positions (guard, exit, action, entry, no_transition, "
@@ -203,6 +205,7 @@ PROPS = {
     },
     "C14": {
         "jobs": jobs(["fe_player", "fe_conflict"], ["plain", "queue"], 1000, 40000)
+                + jobs(["internal_guard_only"], ["plain", "posts"], 1000, 40000, variants=ALLV)      # state-local / sm-internal tables, guard-only rows
                 + jobs(["fe_guard_shapes", "fe_guard_groups"], ["plain"], 1500, 40000)
                 + [job(f, "common", 1500, 50000, variants=["B", "B+feR", "B+feR2", "B+feP", "B+feE"], mode="diff:frontend") for f in ["fe_player", "fe_conflict"]]
                 + [job(f, "common", 1500, 50000, variants=["M", "M+feR", "M+feP", "M+feE"], mode="diff:frontend") for f in ["fe_player", "fe_conflict"]]
